@@ -8,6 +8,7 @@ import (
 	"strings"
 	"sync"
 	"sync/atomic"
+	"time"
 )
 
 // ScriptRunner is an in-process runner.Runner: the "plugin" is a function that
@@ -86,6 +87,11 @@ type ProcRunner struct {
 	// HostPrefix/PluginPrefix: a unix address the plugin reports under
 	// PluginPrefix is reachable by the host under HostPrefix, and vice versa.
 	HostPrefix, PluginPrefix string
+	// KillHonoursCtx makes Kill return ctx.Err() without killing when its context is done, after waiting
+	// KillGrace for it.
+	KillHonoursCtx bool
+	KillGrace      time.Duration
+	KillAborted    atomic.Int32
 
 	Starts, Kills atomic.Int32
 	// translation calls go-plugin made (the runner is harness code: counting
@@ -119,6 +125,16 @@ func (r *ProcRunner) Wait(ctx context.Context) error {
 }
 func (r *ProcRunner) Kill(ctx context.Context) error {
 	r.Kills.Add(1)
+	if r.KillHonoursCtx {
+		// a runner that treats its context as runners for remote sandboxes do: a cancelled or expired
+		// context aborts the kill, and the (optional) grace period is cut short by it
+		select {
+		case <-ctx.Done():
+			r.KillAborted.Add(1)
+			return ctx.Err()
+		case <-time.After(r.KillGrace):
+		}
+	}
 	if r.Cmd.Process != nil {
 		r.Cmd.Process.Kill()
 	}
